@@ -2,7 +2,7 @@
    Only ExtrOcamlBasic is used: nat, positive, N, Z stay the extracted inductives. *)
 Require Extraction.
 Require Import ExtrOcamlBasic.
-From LogV Require Import Base.Bytes Base.Utf8 Base.JsonStr Model.Tag Model.Escape Model.Retention Model.Level Model.Deliver Model.Route Model.Field Model.Encoder Model.Layout Model.Expr Model.Async Base.Json Proofs.JsonProofs Proofs.EncoderProofs Proofs.LayoutProofs Proofs.TextProofs.
+From LogV Require Import Base.Bytes Base.Utf8 Base.JsonStr Model.Tag Model.Escape Model.Retention Model.Level Model.Deliver Model.Route Model.Field Model.Encoder Model.Layout Model.Expr Model.Async Model.Entry Model.RawWrite Base.Json Proofs.JsonProofs Proofs.EncoderProofs Proofs.LayoutProofs Proofs.TextProofs.
 Extraction Language OCaml.
 Extraction "model.ml" Z.add Z.mul Z.opp Z.of_N Z.to_N N.add N.of_nat N.to_nat
   is_valid_tag build_tag register_tag all_tags
@@ -13,4 +13,6 @@ Extraction "model.ml" Z.add Z.mul Z.opp Z.of_N Z.to_N N.add N.of_nat N.to_nat
   num_of_int f_bool f_int f_uint f_float f_string f_nil f_reflect f_any f_object f_array f_from_map msg_key
   json_layout text_layout wf_event event_members decode_json parse_json json_clean check_raw
   parse
-  q_init aseq_step submit.
+  q_init aseq_step submit
+  log_call enable
+  rrun drain_all write_raw_refs.
